@@ -70,6 +70,7 @@ func verifLabelKeyMenu() []schema.DependencyKeys {
 		{Labels: []schema.LabelDependent{{Index: 1, Value: "b"}}},
 		{Labels: []schema.LabelDependent{{Index: 0, Value: "aws"}, {Index: 1, Value: "vpc"}}},
 		{Labels: []schema.LabelDependent{{Index: 0, Value: "azr"}, {Index: 1, Value: "inst"}}},
+		{Labels: []schema.LabelDependent{{Index: 0, Value: "gcp"}, {Index: 1, Value: "vpc"}}},
 		{Labels: []schema.LabelDependent{{Index: 0, Value: "stat"}}, Attributes: static},
 	}
 }
@@ -131,7 +132,7 @@ func VerifP_C06C07_LabelCandidates(mode int) {
 		verifReach("end")
 		return
 	}
-	values := []string{"aws", "azr", "ab", "abc", "b", "inst", "vpc", "stat", "zzz"}
+	values := []string{"aws", "azr", "ab", "abc", "b", "gcp", "inst", "vpc", "stat", "zzz"}
 	total := 0
 	expects := make([]bool, len(values))
 	counts := make([]int, len(values))
